@@ -854,6 +854,11 @@ class Base:
 
         for v in self.leaf_asts():
             if v.hash() not in var_map and v.is_leaf():
+                # an annotated occurrence of a variable is still that variable: it takes the name of the bare one
+                bare = v.clear_annotations() if v.annotations else v
+                if bare.hash() in var_map:
+                    var_map[v.hash()] = var_map[bare.hash()].annotate(*v.annotations)
+                    continue
                 new_name = f"canonical_{next(ctr)}"
                 match v.op:
                     case "BVS":
@@ -867,7 +872,9 @@ class Base:
                     case _:
                         continue
                 # renaming must not change anything else: keep the annotations of the variable
-                var_map[v.hash()] = new_var.annotate(*v.annotations) if v.annotations else new_var
+                var_map[bare.hash()] = new_var
+                if v.annotations:
+                    var_map[v.hash()] = new_var.annotate(*v.annotations)
 
         return var_map, next(ctr), claripy.replace_dict(self, var_map)
 
